@@ -12,6 +12,8 @@ import (
 	"os"
 	"path/filepath"
 	"runtime"
+	"runtime/debug"
+	"runtime/pprof"
 	"sort"
 	"strconv"
 	"strings"
@@ -48,6 +50,7 @@ type EntrySpec struct {
 	Thorough *Bounds  `json:"thorough"` // overrides
 	Tiers    []string `json:"tiers"`    // if set, only run in these tiers
 	Describe string   `json:"describe"` // what the obligation states (bounds in words)
+	Havoc    []string `json:"havoc"`    // per-entry havoc stubs
 }
 
 type Spec struct {
@@ -64,6 +67,7 @@ type Spec struct {
 	Outside     []string          `json:"outside_claim"`
 	MapOrder    bool              `json:"map_order_forks"`
 	Opaque      map[string]bool   `json:"opaque"`
+	Havoc       []string          `json:"havoc"` // functions replaced by "returns arbitrary results, no side effects"
 	dir         string
 }
 
@@ -267,6 +271,7 @@ type EntryResult struct {
 	Violations    []*Violation           `json:"violations,omitempty"`
 	Samples       []PathSample           `json:"samples,omitempty"`
 	Vacuity       []string               `json:"vacuity_failures,omitempty"`
+	Cuts          map[string]int         `json:"cuts,omitempty"`
 	Status        string                 `json:"status"` // held | violated | incomplete | broken
 }
 
@@ -321,6 +326,15 @@ func runEntry(prog *ssa.Program, s *Spec, es EntrySpec, tier string) *EntryResul
 		}
 		e.replace[funcKey(rf)] = sf
 	}
+	for _, h := range append(append([]string{}, s.Havoc...), es.Havoc...) {
+		hf := findFunc(prog, h)
+		if hf == nil {
+			res.Status = "broken"
+			res.EngineErrors = append(res.EngineErrors, "anchor missing (havoc): "+h)
+			return res
+		}
+		e.externals[funcKey(hf)] = havocFn(hf)
+	}
 	t0 := time.Now()
 	e.Explore(fn, time.Duration(b.WallS)*time.Second)
 	res.WallS = time.Since(t0).Seconds()
@@ -342,6 +356,7 @@ func runEntry(prog *ssa.Program, s *Spec, es EntrySpec, tier string) *EntryResul
 	res.UnknownBranch = e.unknownBranch
 	res.Violations = e.violations
 	res.Samples = e.pathSamples
+	res.Cuts = e.cuts
 	sort.Slice(res.Violations, func(i, j int) bool {
 		return res.Violations[i].Assert+res.Violations[i].Finding < res.Violations[j].Assert+res.Violations[j].Finding
 	})
@@ -384,6 +399,12 @@ func main() {
 		fmt.Fprintln(os.Stderr, "usage: check [flags] <property-id>")
 		flag.PrintDefaults()
 	}
+	// the loaded SSA program is a large, long-lived heap; interpretation allocates
+	// short-lived garbage at a high rate: collect rarely
+	// (measured: a larger GOGC is slower here — fresh-span initialisation dominates)
+	if os.Getenv("GOGC") == "" {
+		debug.SetGCPercent(75)
+	}
 	// go/packages looks `go` up through this process's PATH
 	os.Setenv("PATH", goBin+":"+os.Getenv("PATH"))
 	os.Setenv("GOFLAGS", "-mod=mod")
@@ -415,6 +436,14 @@ func main() {
 	seed := 0
 	if s := os.Getenv("VERIF_SEED"); s != "" {
 		seed, _ = strconv.Atoi(s)
+	}
+	if pf := os.Getenv("GOSYM_PROF"); pf != "" {
+		f, _ := os.Create(pf)
+		pprof.StartCPUProfile(f)
+		code := runCheck(id, *tier, seed, *replay, *only, *verbose, *noReplay)
+		pprof.StopCPUProfile()
+		f.Close()
+		os.Exit(code)
 	}
 	os.Exit(runCheck(id, *tier, seed, *replay, *only, *verbose, *noReplay))
 }
